@@ -13,6 +13,7 @@ import (
 	"sort"
 	"strings"
 	"sync"
+	"sync/atomic"
 	"time"
 )
 
@@ -116,7 +117,10 @@ var current struct {
 }
 
 // begin arms the watchdog for ONE case (begin("") disarms it)
+var inPhase atomic.Bool
+
 func begin(desc string) {
+	inPhase.Store(false)
 	current.Lock()
 	current.desc, current.start, current.limit = desc, time.Now(), 0
 	current.Unlock()
@@ -126,6 +130,11 @@ func begin(desc string) {
 // beginPhase stays armed: its goroutines return from many calls.) Without it a case stays armed through whatever
 // bookkeeping follows, and on a loaded machine a slow reference computation was once reported as a hang of the library.
 func end() {
+	// inside a multi-goroutine phase nothing is disarmed - and no lock is taken: a mutex shared by all workers would order
+	// their library calls for the race detector and hide the very races the phase is there to find
+	if inPhase.Load() {
+		return
+	}
 	current.Lock()
 	if current.limit == 0 {
 		current.desc = ""
@@ -135,6 +144,7 @@ func end() {
 
 // beginPhase arms it for a whole multi-goroutine phase, with a longer limit
 func beginPhase(desc string) {
+	inPhase.Store(true)
 	current.Lock()
 	current.desc, current.start, current.limit = "phase: "+desc, time.Now(), 900*time.Second
 	current.Unlock()
